@@ -877,7 +877,32 @@ fn gen_dyn_type_definitions(goenv: &GlobalGoEnv, req: &DynRequirements) -> Vec<g
     items
 }
 
-fn gen_dyn_helper_fns(goenv: &GlobalGoEnv, req: &DynRequirements) -> Vec<goast::Item> {
+/// The function that implements `trait_name::method_name` for `for_ty`, looked up among the
+/// functions of the program by its receiver type. Its name was fixed before monomorphisation
+/// (`trait_impl#Tr#Gn[int32]#m`), so it cannot be recomputed from the monomorphic `for_ty`.
+fn defined_trait_impl_fn_name(
+    file: &anf::File,
+    trait_name: &str,
+    for_ty: &tast::Ty,
+    method_name: &str,
+) -> Option<String> {
+    let prefix = format!("trait_impl#{}#", trait_name);
+    let suffix = format!("#{}", method_name);
+    file.toplevels
+        .iter()
+        .find(|f| {
+            f.name.starts_with(&prefix)
+                && f.name.ends_with(&suffix)
+                && f.params.first().is_some_and(|(_, ty)| ty == for_ty)
+        })
+        .map(|f| f.name.clone())
+}
+
+fn gen_dyn_helper_fns(
+    goenv: &GlobalGoEnv,
+    req: &DynRequirements,
+    file: &anf::File,
+) -> Vec<goast::Item> {
     let mut vtables: Vec<(String, tast::Ty)> = req.vtables.iter().cloned().collect();
     vtables.sort_by(|(t1, ty1), (t2, ty2)| {
         let k1 = (t1.clone(), encode_ty(ty1));
@@ -890,10 +915,15 @@ fn gen_dyn_helper_fns(goenv: &GlobalGoEnv, req: &DynRequirements) -> Vec<goast::
         let methods = trait_method_sigs(goenv, &trait_name);
 
         for (method_name, params, ret_ty) in &methods {
+            let impl_name = defined_trait_impl_fn_name(file, &trait_name, &for_ty, method_name)
+                .unwrap_or_else(|| {
+                    trait_impl_fn_name(&TastIdent(trait_name.clone()), &for_ty, method_name)
+                });
             items.push(goast::Item::Fn(gen_dyn_wrap_fn(
                 &trait_name,
                 &for_ty,
                 method_name,
+                &impl_name,
                 params,
                 ret_ty,
             )));
@@ -912,6 +942,7 @@ fn gen_dyn_wrap_fn(
     trait_name: &str,
     for_ty: &tast::Ty,
     method_name: &str,
+    impl_name: &str,
     params: &[tast::Ty],
     ret_ty: &tast::Ty,
 ) -> goast::Fn {
@@ -923,9 +954,7 @@ fn gen_dyn_wrap_fn(
         go_params.push((format!("p{}", i), tast_ty_to_go_type(pty)));
     }
 
-    let trait_ident = TastIdent(trait_name.to_string());
-    let impl_name = trait_impl_fn_name(&trait_ident, for_ty, method_name);
-    let impl_go_name = go_ident(&impl_name);
+    let impl_go_name = go_ident(impl_name);
 
     let receiver_go_ty = tast_ty_to_go_type(for_ty);
     let ret_go_ty = tast_ty_to_go_type(ret_ty);
@@ -2352,7 +2381,7 @@ pub fn go_file(
 
     let mut toplevels = gen_type_definition(&goenv);
     toplevels.extend(gen_dyn_type_definitions(&goenv, &dyn_req));
-    toplevels.extend(gen_dyn_helper_fns(&goenv, &dyn_req));
+    toplevels.extend(gen_dyn_helper_fns(&goenv, &dyn_req, &file));
     for item in file.toplevels {
         let gof = compile_fn(&goenv, gensym, item);
         toplevels.push(goast::Item::Fn(gof));
